@@ -39,6 +39,10 @@ inductive Ev
   | lost
   /-- `E` / `D` / `S`: the user's handle -/
   | enable | disable | shutdown
+  /-- `X`: every `Channel` handle is dropped: the command queue is closed, `rx.recv()` returns
+      `None` wherever the task waits for a command (`wait_for_enabled`, `fail_requests_for`,
+      `ClientLoop::poll`): `Shutdown`, exactly like the command -/
+  | dropAll
   /-- `~<ms>`: time passes, nothing else -/
   | pause
 deriving DecidableEq, Repr
@@ -100,7 +104,7 @@ def step (s : S) (e : Ev) : S × List PortState :=
     match e with
     -- `Setting::Enable`: `wait_for_enabled` returns
     | .enable => loopTop { s with enabled := true }
-    | .shutdown => finish s
+    | .shutdown | .dropAll => finish s
     | .absent | .lost => ({ s with present := false }, [])
     | .present => ({ s with present := true }, [])
     -- `Setting::Disable` while disabled: `wait_for_enabled` keeps waiting
@@ -112,7 +116,7 @@ def step (s : S) (e : Ev) : S × List PortState :=
     | .present => loopTop { s with present := true }
     | .lost => ({ s with present := false }, [])
     | .disable => disabledNow s
-    | .shutdown => finish s
+    | .shutdown | .dropAll => finish s
     | .enable | .pause => (s, [])
   | .session =>
     match e with
@@ -123,7 +127,7 @@ def step (s : S) (e : Ev) : S × List PortState :=
     | .absent => ({ s with present := false }, [])
     | .present => ({ s with present := true }, [])
     | .disable => disabledNow s
-    | .shutdown => finish s
+    | .shutdown | .dropAll => finish s
     | .enable | .pause => (s, [])
 
 /-- the state after a script -/
